@@ -13,7 +13,8 @@ BOUNDS = [2 ** 8 - 1, 2 ** 8, 2 ** 8 + 1, 2 ** 16 - 1, 2 ** 16, 2 ** 16 + 1, 2 *
 FAMILY_VERSIONS = ["3.0", "3.1", "3.2", "3.3", "3.4", "3.5"]
 # same name, other meaning than in 3.6: MAKE_FUNCTION (flags instead of counts since 3.6), EXTENDED_ARG; BUILD_MAP took a
 # size hint up to 3.4; 3.0 / 3.1 had the 2.6-style LIST_APPEND / SET_ADD and (per xdis's tables, undecided here) IMPORT_NAME
-FAMILY_CHANGED = {"*": ("MAKE_FUNCTION", "EXTENDED_ARG"), "3.4": ("BUILD_MAP",), "3.3": ("BUILD_MAP",), "3.2": ("BUILD_MAP",),
+# BUILD_MAP_UNPACK_WITH_CALL: in 3.5 only the low byte of the operand counts the mappings (the second byte locates the callable)
+FAMILY_CHANGED = {"*": ("MAKE_FUNCTION", "EXTENDED_ARG", "BUILD_MAP_UNPACK_WITH_CALL"), "3.4": ("BUILD_MAP",), "3.3": ("BUILD_MAP",), "3.2": ("BUILD_MAP",),
                   "3.1": ("BUILD_MAP", "IMPORT_NAME"), "3.0": ("BUILD_MAP", "IMPORT_NAME", "LIST_APPEND", "SET_ADD")}
 
 
